@@ -27,11 +27,12 @@ struct SchedConfig
    bool realCv = false;         // true: WaitCondition runs its real std::condition_variable code; the scheduler then simulates the pthread_cond_* calls underneath
                                 //       (symbol interposition) instead of replacing Wait()/Notify() wholesale through the condWait/condNotify hooks
    int pEintrPct = 0;           // probability that a blocking select()/send()/recv() of a simulated thread fails with EINTR (a signal handler ran): callers must simply retry
+   int pOomPermille = 0;        // probability (per thousand) that a nothrow allocation of a simulated thread fails while the harness has that thread's window open (OomWindow)
    int pSpuriousCvPct = 0;      // realCv: probability that a pthread_cond wait is woken without a signal (legal for a condition variable)
    std::vector<int> replay;     // if non-empty: recorded decisions (thread ids, -1 = advance clock) fed back instead of the PRNG
 };
 
-struct SchedStats {uint64_t steps = 0, switches = 0, timeoutsFired = 0, spuriousPolls = 0, preemptions = 0, maxThreads = 0, clockAdvances = 0, cvWaits = 0, cvSignals = 0, cvSpurious = 0, cvSignalsNoWaiter = 0, eintrs = 0;};
+struct SchedStats {uint64_t steps = 0, switches = 0, timeoutsFired = 0, spuriousPolls = 0, preemptions = 0, maxThreads = 0, clockAdvances = 0, cvWaits = 0, cvSignals = 0, cvSpurious = 0, cvSignalsNoWaiter = 0, eintrs = 0, ooms = 0;};
 
 // --- life cycle (called by the workload, on the main thread of the forked child)
 void Begin(const SchedConfig & cfg);                 // registers the calling thread as thread 0 and installs the hooks
@@ -48,6 +49,8 @@ std::string DecisionString();                        // the decision trace, comp
 size_t NumThreads();
 int StateOf(int tid);
 const void * WaitObjOf(int tid);
+void OomWindow(bool on);                             // fault window of the calling thread: while open, its nothrow allocations fail with probability pOomPermille
+uint32_t OomsInjected();                             // number of allocations of the calling thread that were made to fail so far
 void FailSocketpairs(bool on);                       // fault: while on, socketpair() fails with EMFILE (the process is out of descriptors)
 bool IsAsleep(int tid);                              // blocked in a condition / pthread_cond / poll wait that nothing has made ready (no notification pending, no signal, no readable byte, deadline not reached)
 
